@@ -23,6 +23,9 @@ for root,dirs,files in os.walk(V+'/engines/vs'):
 for f in os.listdir(V+'/engines/bpx'):
     if f.endswith('.go') and not f.endswith('_test.go'):
         rep[mod+'/zzverif/bpx/'+f]=V+'/engines/bpx/'+f
+for f in os.listdir(V+'/engines/vsconf'):
+    if f.endswith('.go'):
+        rep[mod+'/zzverif/vsconf/'+f]=V+'/engines/vsconf/'+f
 json.dump({'Replace':rep},open(W+'/ov.json','w'),indent=1)
 PY
 cd $BPMOD
